@@ -45,7 +45,6 @@ func newInfluxDBOutNode(et *ExecutingTask, n *pipeline.InfluxDBOutNode, d NodeDi
 		batchBuffer: new(edge.BatchBuffer),
 	}
 	in.node.runF = in.runOut
-	in.node.stopF = in.stopOut
 	in.wb.i = in
 	return in, nil
 }
@@ -59,6 +58,13 @@ func (n *InfluxDBOutNode) runOut([]byte) error {
 
 	// Start the write buffer
 	n.wb.start()
+	// Write what is still buffered once all the input has been consumed.
+	// This must not happen when the task is asked to stop: the input edge may still
+	// hold data then, and everything enqueued after an abort is dropped.
+	defer func() {
+		n.wb.flush()
+		n.wb.abort()
+	}()
 
 	// Create the database and retention policy
 	if n.i.CreateFlag {
@@ -142,11 +148,6 @@ func (n *InfluxDBOutNode) DeleteGroup(d edge.DeleteGroupMessage) (edge.Message, 
 	return d, nil
 }
 func (n *InfluxDBOutNode) Done() {}
-
-func (n *InfluxDBOutNode) stopOut() {
-	n.wb.flush()
-	n.wb.abort()
-}
 
 func (n *InfluxDBOutNode) write(db, rp string, batch edge.BufferedBatchMessage) error {
 	if n.i.Database != "" {
